@@ -32,7 +32,10 @@ OUT = os.environ.get('VSYM_OUT_DIR') or VERIF  # evidence/ and replays/ go here 
 
 
 def child_env():
-    env = dict(os.environ)
+    # a small environment: exactly_lib copies os.environ in several places and CrossHair models
+    # dict(...) with linear-time structures, so a big environment only costs time
+    keep = ('PATH', 'HOME', 'LANG', 'LC_ALL', 'TMPDIR', 'USER', 'LOGNAME', 'SHELL', 'TERM')
+    env = {k: v for k, v in os.environ.items() if k in keep or k.startswith('VSYM_') or k.startswith('VERIF_')}
     env['PYTHONPATH'] = os.pathsep.join([os.path.join(REPO, 'src'), VERIF])
     env['PYTHONDONTWRITEBYTECODE'] = '1'
     env['PYTHONWARNINGS'] = 'ignore'
